@@ -93,7 +93,7 @@ def prop(case, res):
         else:
             state = chk(s[i + 1:] or (cfg['pay'][0]), **kw) if i + 1 < n else 0
             posc = (n - 1 - i) % (8 if alg == 'verhoeff' else 2)
-        for b in alpha:
+        for b in (alpha if not case.get('light') else alpha[:2] + alpha[-1:]):
             if b == a or kind(b) != kind(a):
                 continue
             res.nt(alg, 'sub', state, posc, a, b)
@@ -149,6 +149,21 @@ def shard_rand(a):
     return res
 
 
+def shard_ladder(a):
+    """Every payload length 1..top once (two payloads each) and a few long ones: a weight table that is shorter than the
+    string, or whose period is off by one, only shows beyond a particular length (the statement says "any length")."""
+    import random
+    res = core.Result()
+    cfg = CFG[a['alg']]
+    rnd = random.Random(core.subseed(a['seed'], 'C06', 'ladder', a['alg']))
+    for L in list(range(1, a['top'] + 1)) + a['long']:
+        for rep in range(2 if L <= a['top'] else 1):
+            p = ''.join(rnd.choice(cfg['pay']) for _ in range(L))
+            res.hist['ladder-lengths'] += 1
+            prop({'alg': a['alg'], 'p': p, 'light': L > 40}, res)
+    return res
+
+
 def run(ctx):
     core.number_modules()
     args = []
@@ -173,4 +188,6 @@ def run(ctx):
     res2 = core.run_shards(shard_rand, [{'shard': alg, 'alg': alg, 'n': ctx.q(60, 1500), 'maxlen': ctx.q(64, 600), 'seed': ctx.seed,
                                          'known': ctx.known_buckets} for alg in CFG])
     res.merge(res2)
+    res.merge(core.run_shards(shard_ladder, [{'shard': 'ladder:' + alg, 'alg': alg, 'top': ctx.q(130, 300), 'seed': ctx.seed,
+                                              'long': ctx.q([160, 200, 256, 400], [400, 512, 700, 1000, 1500, 2500, 4000])} for alg in CFG]))
     return core.finish(ctx, res, LEVEL, RULE, ASSUME, SUBS, extra={'exhaustive': False, 'exhaustive_part': 'all payloads up to the stated length per alphabet'})
